@@ -23,7 +23,16 @@ type customErr struct{ code int }
 
 func (e *customErr) Error() string { return fmt.Sprintf("custom reader error %d", e.code) }
 
-var errValues = []error{gen.ErrInjected, io.ErrUnexpectedEOF, &customErr{7}, io.ErrClosedPipe, fmt.Errorf("wrapped: %w", gen.ErrInjected)}
+// eofWrapper is a failure whose chain leads to io.EOF without being io.EOF: a
+// truncated stream reported by a layer that annotates errors. It is a
+// failure, not the end of input.
+type eofWrapper struct{ at int }
+
+func (e *eofWrapper) Error() string { return fmt.Sprintf("short read at %d", e.at) }
+func (e *eofWrapper) Unwrap() error { return io.EOF }
+
+var errValues = []error{gen.ErrInjected, io.ErrUnexpectedEOF, &customErr{7}, io.ErrClosedPipe, fmt.Errorf("wrapped: %w", gen.ErrInjected),
+	fmt.Errorf("reading body: %w", io.EOF), &eofWrapper{5}, io.ErrNoProgress, io.ErrShortBuffer}
 
 // streamAll drives the streaming entry point to its end and a few calls
 // beyond, returning the blocks and the terminal error.
@@ -102,7 +111,7 @@ func one(in []byte, sched []int, eofData bool, fault int, errIdx int, extra int)
 		}
 		return compare(blocks, refs, in)
 	}
-	if !errors.Is(term, E) {
+	if !errors.Is(term, E) || term == io.EOF {
 		return fmt.Errorf("reader failed with %v after %d bytes but NextBlock reported %v", E, fault, term)
 	}
 	k := fault
